@@ -96,6 +96,14 @@ CHECKS = {
         "back-references) are checked for engine choice; String() is checked natively; Convert's totality on all byte strings of 0..3 (5) bytes is decided by an SSA unit.",
    note="SMT-LIB regex semantics of z3 5.1.0; the two pattern-to-RegLan translators written in this check (validated by witness replay on the real engines); the matching engines themselves are not executed symbolically; alphabet: code points <= 0x2FFFF",
    design="4 C08", technique="SMT regular-expression equivalence (z3 seq/re theory) on Convert's real output + symbolic execution of Convert for totality"),
+ "C01": dict(
+   text="Bounded symbolic model checking of a full client->server->client exchange on code GENERATED in this run: the generated Client.<Op> is executed with a loop-back http client whose "
+        "Do(r) runs the generated Server.ServeHTTP in process, i.e. the real path conv -> uri encoders -> URL assembly -> http.NewRequest -> router -> NormalizeEscapedPath -> PathUnescape -> "
+        "uri decoders -> conv -> defaults -> middleware hook -> handler -> response encoder -> response decoder is executed symbolically. For symbolic caller values (path/query/header/cookie "
+        "parameters of every location incl. arrays and a schema default, a JSON body with optional/defaulted/array members) and symbolic handler responses (200 with header, 4XX pattern with symbolic "
+        "code, default codes, no-content) it asserts: a successful call ran middleware and handler once with exactly the caller's values (defaults applied), the middleware sees what the handler "
+        "sees, the caller gets exactly the variant/status/header/body returned, and core-domain values are always delivered. One spec (three operations); the spec dimension is not explored.",
+   design="4 C01", technique="symbolic execution of generated client and server Go code (go/ssa) in an in-process loop-back + SMT"),
 }
 
 NA = {
